@@ -1,7 +1,7 @@
 ----------------------------- MODULE SchemaStore -----------------------------
 (* Saving and re-loading HED schemas (property C05).
 
-   ABSTRACT SCHEMA.  s = [hdr, tags, ucs, units]
+   ABSTRACT SCHEMA.  s = [hdr, tags, ucs, units, others]
      hdr   = [library : Seq(STRING) (<<>> = standard schema, two or more = merged from several
               libraries), withStandard : STRING ("" = no partner), unmerged : BOOLEAN (how it was loaded)]
      tags  = set of [name, parent ("" = top level), attrs : set of <<attribute, value>> pairs
@@ -10,10 +10,11 @@
               <<"rooted", partnerNode>>), desc : description kind, val : TRUE for a '#' child]
      ucs   = set of [name, attrs, desc]             (unit classes)
      units = set of [name, uclass, attrs, desc]
+     others = set of [name, sect, attrs, desc]      (value classes, unit modifiers, attribute and property definitions)
    Short names are unique (HED rule), so they identify entries; a '#' child of P is named P \o "/#".
 
    EDITS.  AddNode, AddRooted, RemoveLeaf, SetAttr, SetDesc, AddValueChild, AddUnitClass, AddUnit,
-   Merge (a second library is merged in; such a schema must refuse to be saved).
+   AddValueClass, Merge (a second library is merged in; such a schema must refuse to be saved).
 
    WRITER  Written(sc, merged, fmt): the format-independent decision table of
    Schema2Base.process_schema/_should_skip/_attribute_disallowed/_output_tags/_output_units:
@@ -68,8 +69,12 @@ BaseTags == {
   TagE("Object", "Item", {<<"suggestedTag", "Sensory-presentation">>}, "base", FALSE) }
 BaseUCs == { [name |-> "timeUnits", attrs |-> {<<"defaultUnits", "s">>}, desc |-> "none"] }
 BaseUnits == {
-  [name |-> "second", uclass |-> "timeUnits", attrs |-> {<<"SIUnit", TRUEV>>, <<"conversionFactor", "1.0">>}, desc |-> "base"],
-  [name |-> "s", uclass |-> "timeUnits", attrs |-> {<<"SIUnit", TRUEV>>, <<"unitSymbol", TRUEV>>, <<"conversionFactor", "1.0">>}, desc |-> "base"] }
+  [name |-> "second", uclass |-> "timeUnits", attrs |-> {<<"SIUnit", TRUEV>>, <<"conversionFactor", "1.0">>}, desc |-> "none"],
+  [name |-> "s", uclass |-> "timeUnits", attrs |-> {<<"SIUnit", TRUEV>>, <<"unitSymbol", TRUEV>>, <<"conversionFactor", "1.0">>}, desc |-> "none"] }
+BaseOthers == {
+  [name |-> "numericClass", sect |-> "valueClass", desc |-> "base",
+   attrs |-> {<<"allowedCharacter", c>> : c \in {"digits", "E", "e", "plus", "hyphen", "period"}}],
+  [name |-> "textClass", sect |-> "valueClass", desc |-> "base", attrs |-> {<<"allowedCharacter", "text">>}] }
 
 \* sibling order used whenever siblings have to be put in a row (ordinal order of the names)
 NameOrder == <<"Alpha", "Beta", "Delta", "Event", "Gamma", "Item", "Kappa", "Measurement-event", "Object",
@@ -146,10 +151,18 @@ WUCs(sc, m, f) == {UCRow(sc, m, f, u) : u \in {u \in sc.ucs : ~Skip(sc, m, u) \/
 WUnits(sc, m) == {[name |-> x.name, uclass |-> x.uclass, attrs |-> WAttrs(sc, m, x), desc |-> x.desc] :
                      x \in {x \in sc.units : ~Skip(sc, m, x)}}
 
+WOthers(sc, m) == {[name |-> x.name, sect |-> x.sect, attrs |-> WAttrs(sc, m, x), desc |-> x.desc] :     \* _output_section
+                      x \in {x \in sc.others : ~Skip(sc, m, x)}}
 MkFile(sc, m, f, rows) ==
   [fmt |-> f,
    hdr |-> [library |-> sc.hdr.library, withStandard |-> sc.hdr.withStandard, unmerged |-> ~EffMerged(sc, m)],
-   tags |-> rows, ucs |-> WUCs(sc, m, f), units |-> WUnits(sc, m)]
+   tags |-> rows, ucs |-> WUCs(sc, m, f), units |-> WUnits(sc, m), others |-> WOthers(sc, m)]
+\* what the XML file lists for the tags, said without reference to any order: an entry is nested in its parent iff
+\* the parent is written too
+XmlSet(sc, m) == LET kept == {e \in sc.tags : ~Skip(sc, m, e)}
+                     keptNames == Names(kept)
+                 IN {[name |-> e.name, val |-> e.val, parent |-> IF e.parent \in keptNames THEN e.parent ELSE "",
+                      attrs |-> WAttrs(sc, m, e), desc |-> e.desc] : e \in kept}
 Written(sc, m, f) == MkFile(sc, m, f, WTags(sc, m, MemOrder(sc.tags), 1, 0, {}))
 MergedOpts(sc) == IF Partnered(sc) THEN {TRUE, FALSE} ELSE {TRUE}
 Formats == {"xml", "mediawiki", "tsv"}
@@ -202,6 +215,8 @@ Loaded(F) ==
       t0 == IF LoadsPartner(F) THEN BaseTags ELSE {}
       uc0 == IF LoadsPartner(F) THEN BaseUCs ELSE {}
       un0 == IF LoadsPartner(F) THEN BaseUnits ELSE {}
+      o0 == IF LoadsPartner(F) THEN BaseOthers ELSE {}
+      oNew == {[name |-> x.name, sect |-> x.sect, attrs |-> x.attrs \cup ILOf(F, x.attrs), desc |-> x.desc] : x \in F.others}
       tNew == {TagE(F.tags[i].name, pars[i], F.tags[i].attrs \cup ILOf(F, F.tags[i].attrs), F.tags[i].desc, F.tags[i].val) :
                   i \in 1..n}
       UCE(r) == [name |-> r.name, attrs |-> r.attrs \cup ILOf(F, r.attrs), desc |-> r.desc]
@@ -212,11 +227,14 @@ Loaded(F) ==
       \* "Library tag in unmerged schema has InLibrary attribute"
       ilError == LoadsPartner(F) /\ (\/ \E i \in 1..n : HasA(F.tags[i], "inLibrary")
                                      \/ \E r \in F.ucs : HasA(r, "inLibrary")
-                                     \/ \E x \in F.units : HasA(x, "inLibrary"))
+                                     \/ \E x \in F.units : HasA(x, "inLibrary")
+                                     \/ \E x \in F.others : HasA(x, "inLibrary"))
   IN [ok |-> (\A i \in 1..n : pars[i] # BAD) /\ ~ilError,
       dup |-> (Names(tNew) \cap Names(t0) # {}) \/ Cardinality(Names(tNew)) # n
-              \/ (Names(ucNew) \cap Names(uc0) # {}) \/ (Names(unNew) \cap Names(un0) # {}),
-      sch |-> [hdr |-> F.hdr, tags |-> t0 \cup tNew, ucs |-> uc0 \cup ucNew, units |-> un0 \cup unNew]]
+              \/ (Names(ucNew) \cap Names(uc0) # {}) \/ (Names(unNew) \cap Names(un0) # {})
+              \/ (Names(oNew) \cap Names(o0) # {}),
+      sch |-> [hdr |-> F.hdr, tags |-> t0 \cup tNew, ucs |-> uc0 \cup ucNew, units |-> un0 \cup unNew,
+               others |-> o0 \cup oNew]]
 
 \* =========================== EDITS ===========================
 Own(e) == ~Partnered(s) \/ InLib(e)
@@ -250,7 +268,11 @@ SetDescUC(u, k) == /\ Editable /\ Own(u) /\ k # u.desc
 SetDescUnit(x, k) == /\ Editable /\ Own(x) /\ k # x.desc
                      /\ s' = [s EXCEPT !.units = (@ \ {x}) \cup {[x EXCEPT !.desc = k]}]
                      /\ Log(<<"SetDesc", "unit", x.name, k>>)
+SetDescOther(x, k) == /\ Editable /\ Own(x) /\ k # x.desc
+                      /\ s' = [s EXCEPT !.others = (@ \ {x}) \cup {[x EXCEPT !.desc = k]}]
+                      /\ Log(<<"SetDesc", x.sect, x.name, k>>)
 ValueOpts == {<<{}, "textClass">>} \cup {<<{u}, "numericClass">> : u \in Names(s.ucs)}
+             \cup (IF "libClass" \in Names(s.others) THEN {<<{}, "libClass">>} ELSE {})
              \cup (IF Cardinality(s.ucs) > 1 THEN {<<Names(s.ucs), "numericClass">>} ELSE {})
 AddValueChild(e, o) == /\ Editable /\ Own(e) /\ ~e.val /\ (e.name \o "/#") \notin Names(s.tags)
                        /\ s' = [s EXCEPT !.tags = @ \cup {TagE(e.name \o "/#", e.name,
@@ -262,6 +284,10 @@ AddUnitClass == /\ Editable /\ "libUnits" \notin Names(s.ucs)
                                   !.units = @ \cup {[name |-> "libunit", uclass |-> "libUnits",
                                                      attrs |-> NewIL \cup {<<"SIUnit", TRUEV>>, <<"conversionFactor", "1.0">>}, desc |-> "none"]}]
                 /\ Log(<<"AddUnitClass", "libUnits">>)
+AddValueClass == /\ Editable /\ "libClass" \notin Names(s.others)
+                 /\ s' = [s EXCEPT !.others = @ \cup {[name |-> "libClass", sect |-> "valueClass", desc |-> "none",
+                                        attrs |-> NewIL \cup {<<"allowedCharacter", "letters">>, <<"allowedCharacter", "digits">>}]}]
+                 /\ Log(<<"AddValueClass", "libClass">>)
 UnitOpts == {{}, {<<"conversionFactor", "0.01">>}, {<<"SIUnit", TRUEV>>, <<"unitSymbol", TRUEV>>}}
 AddUnit(u, n, o) == /\ Editable /\ n \notin Names(s.units)
                     /\ s' = [s EXCEPT !.units = @ \cup {[name |-> n, uclass |-> u.name, attrs |-> NewIL \cup o, desc |-> "none"]}]
@@ -277,9 +303,9 @@ InitLibTags == { TagE("Alpha", "", {IL(Lib)}, "plain", FALSE),
 Init == /\ edits = <<>>
         /\ s = IF MODE = "partnered"
                THEN [hdr |-> [library |-> <<Lib>>, withStandard |-> "8.3.0", unmerged |-> TRUE],
-                     tags |-> BaseTags \cup InitLibTags, ucs |-> BaseUCs, units |-> BaseUnits]
+                     tags |-> BaseTags \cup InitLibTags, ucs |-> BaseUCs, units |-> BaseUnits, others |-> BaseOthers]
                ELSE [hdr |-> [library |-> <<>>, withStandard |-> "", unmerged |-> FALSE],
-                     tags |-> BaseTags, ucs |-> BaseUCs, units |-> BaseUnits]
+                     tags |-> BaseTags, ucs |-> BaseUCs, units |-> BaseUnits, others |-> BaseOthers]
 
 DoAddNode == \E n \in NewNames : \E p \in {""} \cup Names(s.tags) : AddNode(n, p)
 DoAddRooted == \E n \in NewNames : \E t \in Names(s.tags) : AddRooted(n, t)
@@ -288,16 +314,17 @@ DoSetAttr == \E e \in s.tags : \E o \in AttrOpts : SetAttr(e, o)
 DoSetDesc == \/ \E e \in s.tags : \E k \in DescKinds : SetDescTag(e, k)
              \/ \E u \in s.ucs : \E k \in DescKinds : SetDescUC(u, k)
              \/ \E x \in s.units : \E k \in DescKinds : SetDescUnit(x, k)
+             \/ \E x \in s.others : \E k \in DescKinds : SetDescOther(x, k)
 DoAddValueChild == \E e \in s.tags : \E o \in ValueOpts : AddValueChild(e, o)
 DoAddUnit == \E u \in s.ucs : \E n \in UnitNames, o \in UnitOpts : AddUnit(u, n, o)
 Next == DoAddNode \/ DoAddRooted \/ DoRemoveLeaf \/ DoSetAttr \/ DoSetDesc \/ DoAddValueChild
-        \/ DoAddUnit \/ AddUnitClass \/ Merge
+        \/ DoAddUnit \/ AddUnitClass \/ AddValueClass \/ Merge
 Spec == Init /\ [][Next]_vars
 View == <<s, Len(edits)>>
 
 \* =========================== PROPERTIES ===========================
 SameSch(x, y) == /\ x.hdr.library = y.hdr.library /\ x.hdr.withStandard = y.hdr.withStandard    \* HedSchema.__eq__ ignores `unmerged`
-                 /\ x.tags = y.tags /\ x.ucs = y.ucs /\ x.units = y.units
+                 /\ x.tags = y.tags /\ x.ucs = y.ucs /\ x.units = y.units /\ x.others = y.others
 Reload(sc, m, f) == Loaded(Written(sc, m, f))
 Reloads(sc) == LET FS == Files(sc) IN [x \in DOMAIN FS |-> Loaded(FS[x])]
 RoundTripL(sc, m, L) == L.ok /\ ~L.dup /\ SameSch(L.sch, sc) /\ L.sch.hdr.unmerged = ~EffMerged(sc, m)
@@ -307,8 +334,13 @@ WellFormed == /\ \A e \in s.tags : e.parent = "" \/ e.parent \in Names(s.tags)
               /\ Cardinality(Names(s.tags)) = Cardinality(s.tags)
               /\ \A e \in s.tags : Partnered(s) /\ InLib(e) /\ e.parent # "" /\ ~InLib(ByName(s.tags, e.parent)) => HasA(e, "rooted")
               /\ \A x \in s.units : x.uclass \in Names(s.ucs)
+              /\ \A e \in s.tags : \A p \in e.attrs : p[1] = "valueClass" => p[2] \in Names(s.others)
 RoundTrip == CanSave(s) => LET R == Reloads(s) IN \A x \in DOMAIN R : RoundTripL(s, x[1], R[x])
 FormatsAgree == CanSave(s) => LET R == Reloads(s) IN \A x \in DOMAIN R : R[x] = R[<<x[1], "xml">>]
+\* the writer's pass over the entries (with its set of written nodes) lists exactly what the order-free definition says
+XmlDeclarative == CanSave(s) => LET FS == Files(s) IN \A m \in MergedOpts(s) :
+                     {[name |-> r.name, val |-> r.val, parent |-> r.xmlParent, attrs |-> r.attrs, desc |-> r.desc] :
+                         r \in Range(FS[<<m, "xml">>].tags)} = XmlSet(s, m)
 \* a save either produces a file or is refused; a schema merged from several libraries is refused
 Save(sc, m, f) == IF CanSave(sc) THEN [refused |-> FALSE, file |-> Written(sc, m, f)] ELSE [refused |-> TRUE, file |-> <<>>]
 MultiMergeRefuses == Len(s.hdr.library) > 1 => \A m \in BOOLEAN : \A f \in Formats : Save(s, m, f).refused
